@@ -261,12 +261,19 @@ def design_json(stmts):
         return [[a, i, bool(c)] for a, i, c in r]
 
     def opt(p):
+        # mirrors Pil.optOfParams of the model (the real designer ignores structure parameters altogether, so this field is
+        # compared between the model and this specification only): leading decimal numeral, zero = no-opt, anything else default
         if p is None:
             return 1
-        m = re.match(r"\d+", p)
-        if not m:
+        ip = re.match(r"\d*", p).group(0)
+        m = re.match(r"\.(\d*)", p[len(ip):])
+        frac = m.group(1) if m else ""
+        if not ip and not frac:
             return 1
-        return "no-opt" if int(m.group(0)) == 0 else int(m.group(0))
+        n = int(ip) if ip else 0
+        if not frac.rstrip("0"):
+            return "no-opt" if n == 0 else n
+        return "other:" + (ip.lstrip("0") or "0") + "." + frac.rstrip("0")
     return {
         "domains": [[n, d["doms"][n]] for n in d["order"] if n in d["doms"] and d["doms"][n]],
         "seqs": [[n, nj(d["regs"][n])] for n in d["order"] if d["regs"][n]],
@@ -589,7 +596,7 @@ def gen_doc(rng, size=None, bias="mixed"):
                     pairs.append((i + k, j - k)); paired.update((i + k, j - k))
                     k += 1
         name = _fresh(rng, STRUCT_POOL, used_struct, "C")
-        params = rng.choice([None, None, "1nt", "1nt", "3nt", "0nt", "12nt"])
+        params = rng.choice([None, None, "1nt", "1nt", "3nt", "0nt", "12nt", "no-opt", "no-opt", "0.5nt", "1e+06nt"])
         stmts_struct.append({"k": "struct", "name": name, "params": params, "strands": list(sn),
                              "struct": _dot_paren([len(strands[n]) for n in sn], pairs)})
 
@@ -666,7 +673,7 @@ def gen_doc(rng, size=None, bias="mixed"):
             keep = {i for i, _ in pairs}
             pairs = [(i, j) for i, j in pairs if (L - 1 - i) in keep]
             name = _fresh(rng, STRUCT_POOL, used_struct, "HD")
-            stmts_struct.append({"k": "struct", "name": name, "params": rng.choice([None, "1nt"]), "strands": [s_, s_],
+            stmts_struct.append({"k": "struct", "name": name, "params": rng.choice([None, "1nt", "no-opt", "0nt"]), "strands": [s_, s_],
                                  "struct": _dot_paren([L, L], pairs)})
             meta["tricks"].append(trick)
     if trick in ("selfpair", "selfpair-even"):
@@ -688,7 +695,7 @@ def gen_doc(rng, size=None, bias="mixed"):
                 (p, x, c), (q, y, e) = nucs[i], nucs[j]
                 try_link((p, x), (q, y), int(c == e), force=True)
             name = _fresh(rng, STRUCT_POOL, used_struct, "HP")
-            stmts_struct.append({"k": "struct", "name": name, "params": rng.choice([None, "1nt"]), "strands": [n],
+            stmts_struct.append({"k": "struct", "name": name, "params": rng.choice([None, "1nt", "no-opt", "0nt"]), "strands": [n],
                                  "struct": "(" * L + "." * mid + ")" * L})
             meta["tricks"].append(trick)
     if trick in ("palindrome", "palindrome-even"):
